@@ -87,6 +87,31 @@ class Other:
         return "Other<%s>" % self.name
 
 
+@symbol
+@dataclass(eq=False)
+class SubItem(Item):
+    """Decorated subclass of Item (for type filters)."""
+
+    def __repr__(self):
+        return "SubItem<%s>" % self.name
+
+
+class PlainSubItem(Item):
+    """Undecorated subclass of Item."""
+
+    def __repr__(self):
+        return "PlainSubItem<%s>" % self.name
+
+
+@symbol
+@dataclass(eq=False)
+class Made:
+    """Class constructed by rule heads."""
+    src: Any = None
+    val: Any = None
+    extra: Any = None
+
+
 @predicate
 def pos(x):
     CALLS["pos"] += 1
@@ -105,10 +130,13 @@ class BigP(Predicate):
 FIELDS_USED_CACHE: Dict[str, Any] = {}
 
 
-def make_objects(mk, cls, prefix: str, n: int, fields=("a", "b", "c"), extra=()):
-    """n instances of cls whose listed fields are symbolic ints; extra in {"f","t","d","s"}."""
+def make_objects(mk, cls, prefix: str, n: int, fields=("a", "b", "c"), extra=(), classes=None):
+    """n instances of cls whose listed fields are symbolic ints; extra in {"f","t","d","s"}.
+    classes: optional per-index class override."""
     objs = []
+    base_cls = cls
     for i in range(n):
+        cls = classes[i] if classes and i < len(classes) and classes[i] is not None else base_cls
         kw = {}
         for f in fields:
             kw[f] = mk.int("%s%d.%s" % (prefix, i, f))
@@ -140,7 +168,7 @@ def cond_vars(c) -> List[str]:
             opv(c[2]); opv(c[3])
         elif k in ("in", "contains"):
             opv(c[1]); opv(c[2])
-        elif k in ("flag", "m", "pf", "PC"):
+        elif k in ("flag", "m", "pf", "PC", "HT"):
             if c[1] not in out:
                 out.append(c[1])
         elif k == "big":
@@ -287,6 +315,9 @@ def build(c, V):
         return pos(V[c[1]])
     if k == "PC":
         return BigP(it=V[c[1]])
+    if k == "HT":
+        from entity_query_language import HasType
+        return HasType(variable=V[c[1]], types_=SubItem)
     if k == "and":
         return and_(*[build(s, V) for s in c[1:]])
     if k == "or":
@@ -358,6 +389,8 @@ def holds(alg, c, env, pools=None):
         return alg.cmp("gt", env[c[1]].a, 0)
     if k == "PC":
         return alg.cmp("gt", env[c[1]].b, 1)
+    if k == "HT":
+        return alg.const(isinstance(env[c[1]], SubItem))
     if k in ("and", "&"):
         return alg.and_(*[holds(alg, s, env, pools) for s in c[1:]])
     if k in ("or", "|"):
